@@ -601,7 +601,7 @@ def run_direct(name):
 
 class C02(Prop):
     id = "C02"
-    props_file = "Props/C02.v"
+    props_file = ["Props/C02.v", "Props/C02_Bridge.v"]
     coq_imports = kc.COQ_IMPORTS
     n_quick = 700
     n_thorough = 16000
@@ -614,7 +614,8 @@ class C02(Prop):
                        "double triggers, post-processed with opposite-kind second triggers + ok/value/defused queries and falsy "
                        "values; non-trivial = an event processed with >= 2 process waiters, or a failure thrown into a process, or a "
                        "rejected trigger, and >= 5 processed events; distinct by hash of the case")
-    trusted_base = ["kernel harness props/kernel_common.py (real generators on the real Environment, events named by creation index) "
+    trusted_base = ["vlib/translate.py (Python ast, fail closed; observation/effect tables in props/kernel_tie.py) regenerates coq/Gen/Extracted_kernel.v from the kernel leaves of the tree under test (Environment.schedule/peek/step, Event.succeed/fail/defused, Timeout/Initialize/Interruption.__init__, Interruption._interrupt, Process.interrupt) before every build; the C02_gen_* theorems (Props/C02_Bridge.v) bridge them to Kernel/Model.v; step()'s heappop try/except, its callback loop and peek()'s try/except are whitelisted as one statement each; Process._resume is not translated",
+                    "kernel harness props/kernel_common.py (real generators on the real Environment, events named by creation index) "
                     "and this plugin's instrumentation (generator proxy around process bodies, wrappers of env.schedule/env.step as "
                     "instance attributes; nothing in /repo is touched)",
                     "exceptions are compared by class and args (the kernel throws per-process copies type(e)(*e.args)); tracebacks and "
@@ -636,6 +637,13 @@ class C02(Prop):
                "RBroken is shown unreachable for the answers the C02 theorems meet (popped event missing or without outcome, waiter "
                "without process record, process without Process event); the internal RBroken answers of conditions and "
                "interruptions belong to C05/C04"]
+
+
+    # ---- second tie: the kernel leaves translated from the tree under test before the Coq build (fail closed) ----
+    def pre_build(self):
+        from vlib import framework as fw
+        from props import kernel_tie
+        kernel_tie.write_extracted_kernel(fw.REPO, fw.COQ)
 
     def gen_case(self, rng, tier):
         if rng.random() < 0.45:
